@@ -297,6 +297,32 @@ fn stream(s: &str) -> Vec<i64> {
     vec![errs, invalid_cells(&buf), cells as i64]
 }
 
+/// any character stream through one of the other parsers -> [errors, invalid cells, cells]
+fn other_parser(name: &str, s: &str) -> Vec<i64> {
+    let mut p: Box<dyn BufferParser> = match name {
+        "ascii" => Box::<icy_engine::ascii::Parser>::default(),
+        "atascii" => Box::<icy_engine::atascii::Parser>::default(),
+        "avatar" => Box::<icy_engine::avatar::Parser>::default(),
+        "ctrla" => Box::<icy_engine::ctrla::Parser>::default(),
+        "mode7" => Box::<icy_engine::mode7::Parser>::default(),
+        "pcboard" => Box::<icy_engine::pcboard::Parser>::default(),
+        "petscii" => Box::<icy_engine::petscii::Parser>::default(),
+        "renegade" => Box::<icy_engine::renegade::Parser>::default(),
+        _ => Box::<icy_engine::viewdata::Parser>::default(),
+    };
+    let mut buf = Buffer::new((80, 25));
+    buf.is_terminal_buffer = true;
+    let mut caret = Caret::default();
+    let mut errs = 0;
+    for ch in s.chars() {
+        if p.print_char(&mut buf, 0, &mut caret, ch).is_err() {
+            errs += 1;
+        }
+    }
+    let cells: usize = buf.layers.iter().map(|l| l.lines.iter().map(|ln| ln.chars.len()).sum::<usize>()).sum();
+    vec![errs, invalid_cells(&buf), cells as i64]
+}
+
 /// save/load round trips through the native format with cells chosen by the case:
 /// cells = (x, y, code, attr) quadruples -> [0 saved+loaded | 1 load error, invalid cells, invalid strings]
 fn icyrt(title: &str, w: i32, h: i32, cells: &[i64]) -> Vec<i64> {
@@ -344,6 +370,7 @@ pub fn run(kind: &str, args: &[&str]) -> Option<Obs> {
         "c10font" => Ok(font(args[0], args[1].parse().unwrap(), args[2].parse().unwrap(), args[3].parse().unwrap())),
         "c10hexmacro" => Ok(hexmacro(&String::from_utf8(unhex(args[0])).unwrap())),
         "c10stream" => Ok(stream(&String::from_utf8(unhex(args[0])).unwrap())),
+        "c10parser" => Ok(other_parser(args[0], &String::from_utf8(unhex(args[1])).unwrap())),
         "c10icyrt" => {
             let title = String::from_utf8(unhex(args[0])).unwrap();
             let nums: Vec<i64> = args[3..].iter().map(|s| s.parse().unwrap()).collect();
